@@ -10,6 +10,7 @@ import (
 	"github.com/dgraph-io/badger"
 	res "github.com/jirenius/go-res"
 	"github.com/jirenius/go-res/store"
+	"github.com/jirenius/go-res/verifhook"
 	"github.com/jirenius/keylock"
 )
 
@@ -197,6 +198,7 @@ func (wt writeTxn) Create(v interface{}) error {
 		return errMissingID
 	}
 
+	verifhook.Crash("create-before")
 	err := wt.st.DB.Update(func(txn *badger.Txn) error {
 		// Validate that the resource doesn't exist
 		_, err := txn.Get(wt.rname)
@@ -219,6 +221,7 @@ func (wt writeTxn) Create(v interface{}) error {
 	if err != nil {
 		return err
 	}
+	verifhook.Crash("create-committed")
 
 	wt.st.callOnChange(wt.id, nil, v)
 	return nil
@@ -237,6 +240,7 @@ func (wt writeTxn) Update(v interface{}) error {
 		return fmt.Errorf("update value is of type %s, expected type %s", vv.Type().String(), t.String())
 	}
 	var before interface{}
+	verifhook.Crash("update-before")
 	err := wt.st.DB.Update(func(txn *badger.Txn) error {
 		var err error
 		// Get before value
@@ -264,6 +268,7 @@ func (wt writeTxn) Update(v interface{}) error {
 		}
 		return err
 	}
+	verifhook.Crash("update-committed")
 
 	wt.st.callOnChange(wt.id, before, v)
 	return nil
@@ -274,6 +279,7 @@ func (wt writeTxn) Update(v interface{}) error {
 // If the value does not exist, res.ErrNotFound is returned.
 func (wt writeTxn) Delete() error {
 	var before interface{}
+	verifhook.Crash("delete-before")
 	err := wt.st.DB.Update(func(txn *badger.Txn) error {
 		var err error
 
@@ -306,6 +312,7 @@ func (wt writeTxn) Delete() error {
 		}
 		return err
 	}
+	verifhook.Crash("delete-committed")
 
 	wt.st.callOnChange(wt.id, before, nil)
 	return nil
@@ -385,6 +392,7 @@ func (st *Store) Init(cb func(add func(id string, v interface{})) error) error {
 			if err := st.setValue(txn, rname, v); err != nil {
 				return err
 			}
+			verifhook.Crash("init-seed-set")
 			created[id] = v
 		}
 
@@ -394,6 +402,7 @@ func (st *Store) Init(cb func(add func(id string, v interface{})) error) error {
 		}
 
 		// Set init flag key
+		verifhook.Crash("init-before-marker")
 		return txn.Set(initKey, nil)
 	})
 }
